@@ -202,6 +202,108 @@ impl Actor for OrlScript {
     }
 }
 
+// ---------------------------------------------------------------------------------------------
+// wrap = "ids": the same table actors, but local states, message payloads and random values are types that CARRY an
+// actor Id (value % 4, when that is the Id of an existing actor) and implement Rewrite<Id> accordingly -- so that
+// representative() has embedded Ids to rename (C10).  Timers carry no Ids (the API has no Rewrite bound on them).
+pub static EMB_N: std::sync::atomic::AtomicUsize = std::sync::atomic::AtomicUsize::new(0);
+fn emb_rewrite<S>(v: u16, plan: &RewritePlan<Id, S>) -> u16 {
+    let e = v % 4;
+    if (e as usize) < EMB_N.load(std::sync::atomic::Ordering::SeqCst) {
+        v - e + usize::from(plan.rewrite(&Id::from(e as usize))) as u16
+    } else {
+        v
+    }
+}
+#[derive(Clone, Copy, Debug, PartialEq, Eq, Hash, PartialOrd, Ord)]
+pub struct IdS(pub u16);
+#[derive(Clone, Copy, Debug, PartialEq, Eq, Hash, PartialOrd, Ord)]
+pub struct IdR(pub u8);
+#[derive(Clone, Copy, Debug, PartialEq, Eq, Hash, PartialOrd, Ord)]
+pub struct IdMsg(pub u16);
+impl Rewrite<Id> for IdS {
+    fn rewrite<S>(&self, plan: &RewritePlan<Id, S>) -> Self {
+        IdS(emb_rewrite(self.0, plan))
+    }
+}
+impl Rewrite<Id> for IdR {
+    fn rewrite<S>(&self, plan: &RewritePlan<Id, S>) -> Self {
+        IdR(emb_rewrite(self.0 as u16, plan) as u8)
+    }
+}
+impl Rewrite<Id> for IdMsg {
+    fn rewrite<S>(&self, plan: &RewritePlan<Id, S>) -> Self {
+        IdMsg(emb_rewrite(self.0, plan))
+    }
+}
+impl MsgCodec for IdMsg {
+    fn enc(i: u16) -> Self {
+        IdMsg(i)
+    }
+    fn dec(&self) -> Value {
+        json!(self.0)
+    }
+}
+impl SmallInt for IdR {
+    fn to_u8(&self) -> u8 {
+        self.0
+    }
+}
+#[derive(Clone, Debug)]
+pub struct IdWrap(pub TableActor<IdMsg>);
+fn conv_out(from: Out<TableActor<IdMsg>>, to: &mut Out<IdWrap>) {
+    for c in from {
+        match c {
+            Command::Send(d, m) => to.send(d, m),
+            Command::SetTimer(t, d) => to.set_timer(t, d),
+            Command::CancelTimer(t) => to.cancel_timer(t),
+            Command::ChooseRandom(k, vals) => to.choose_random(k, vals.into_iter().map(IdR).collect()),
+        }
+    }
+}
+impl Actor for IdWrap {
+    type Msg = IdMsg;
+    type State = IdS;
+    type Timer = u8;
+    type Random = IdR;
+    fn on_start(&self, id: Id, o: &mut Out<Self>) -> IdS {
+        let mut o2 = Out::new();
+        let s = self.0.on_start(id, &mut o2);
+        conv_out(o2, o);
+        IdS(s)
+    }
+    fn on_msg(&self, id: Id, state: &mut Cow<IdS>, src: Id, msg: IdMsg, o: &mut Out<Self>) {
+        let base = state.0;
+        let mut c = Cow::Borrowed(&base);
+        let mut o2 = Out::new();
+        self.0.on_msg(id, &mut c, src, msg, &mut o2);
+        if let Cow::Owned(n) = c {
+            *state = Cow::Owned(IdS(n));
+        }
+        conv_out(o2, o);
+    }
+    fn on_timeout(&self, id: Id, state: &mut Cow<IdS>, timer: &u8, o: &mut Out<Self>) {
+        let base = state.0;
+        let mut c = Cow::Borrowed(&base);
+        let mut o2 = Out::new();
+        self.0.on_timeout(id, &mut c, timer, &mut o2);
+        if let Cow::Owned(n) = c {
+            *state = Cow::Owned(IdS(n));
+        }
+        conv_out(o2, o);
+    }
+    fn on_random(&self, id: Id, state: &mut Cow<IdS>, random: &IdR, o: &mut Out<Self>) {
+        let base = state.0;
+        let mut c = Cow::Borrowed(&base);
+        let mut o2 = Out::new();
+        self.0.on_random(id, &mut c, &random.0, &mut o2);
+        if let Cow::Owned(n) = c {
+            *state = Cow::Owned(IdS(n));
+        }
+        conv_out(o2, o);
+    }
+}
+
 /// how table messages (small ints) are embedded in the message type of the model
 pub trait MsgCodec: Clone + Debug + Eq + Hash + Send + Sync + 'static {
     fn enc(i: u16) -> Self;
@@ -685,6 +787,13 @@ pub fn record_system(sysi: usize, sys: &SysJ, out: &mut dyn Write, real_counts: 
             let m = configure(sys, actors);
             let rep = |s: &ActorModelState<TableActor<u16>, Hist>| s.representative();
             record_graph(sysi, sys, &m, &ps_plain, out, real_counts, Some(&rep));
+        }
+        "ids" => {
+            EMB_N.store(sys.actors.len(), std::sync::atomic::Ordering::SeqCst);
+            let actors: Vec<IdWrap> = sys.actors.iter().map(|a| IdWrap(TableActor::new(a))).collect();
+            let m = configure(sys, actors);
+            let rep = |s: &ActorModelState<IdWrap, Hist>| s.representative();
+            record_graph(sysi, sys, &m, &|s: &IdS| json!(s.0), out, real_counts, Some(&rep));
         }
         "choice_l" => {
             // Choice<T, Never>
